@@ -134,6 +134,10 @@ func main() {
 	}
 	wg.Wait()
 
+	structural := []string{}
+	if *prop == "C17" {
+		structural = checkAbortFlag(eng)
+	}
 	var known KnownFindings
 	if b, err := os.ReadFile(*knownFile); err == nil {
 		json.Unmarshal(b, &known)
@@ -218,6 +222,11 @@ func main() {
 				inconclusive = true
 			}
 		}
+	}
+	for _, sp := range structural {
+		nViol++
+		fmt.Printf("VIOLATION property=C17 replay=none kind=structural %s\n", sp)
+		exit = 1
 	}
 	if *prop != "" && *only == "" {
 		writeEvidence(*evdir, *prop, *tier, results, eng, time.Since(t0), nViol, *solver, nWitOK)
